@@ -272,7 +272,7 @@ CHECKS = {
         "level_text": "Sampled exploration; each generated signature is checked by a second implementation of the digest, so a self-consistent but non-interoperable layout is visible.",
         "level_note": "Shares only OpenSSL's primitive with the library.",
         "stages": [{"driver": BGPSEC,
-                    "quick": {"procs": 8, "rc": (1500, 100)},
+                    "quick": {"procs": 8, "rc": (4000, 100)},
                     "thorough": {"procs": 16, "rc": (12000, 100), "timeout": 7200}}],
     },
     "C15": {
@@ -290,7 +290,7 @@ CHECKS = {
         "level_text": "Sampled exploration of configurations and event histories with the property's sentences as invariants evaluated after every event.",
         "level_note": "Single-threaded; the manager's own locking is not exercised here.",
         "stages": [{"driver": MGR,
-                    "quick": {"procs": 8, "rc": (3000, 60)},
+                    "quick": {"procs": 8, "rc": (12000, 60)},
                     "thorough": {"procs": 16, "rc": (40000, 100), "timeout": 7200}}],
     },
     "C16": {
@@ -307,11 +307,11 @@ CHECKS = {
         "level_text": "Exhaustive (per generated program) over the states observable between critical sections; sampled over real interleavings with a linearizability oracle and happens-before race detection.",
         "level_note": "Cannot show absence of a bad interleaving inside correctly locked sections (none can exist) nor of races the sampled schedules never overlap; TSan needs only an overlap, not the bad outcome.",
         "stages": [{"driver": CONC, "args": ["--mode", "det"],
-                    "quick": {"procs": 4, "rc": (150, 80)}, "thorough": {"procs": 16, "rc": (1500, 200), "timeout": 7200}},
+                    "quick": {"procs": 6, "rc": (400, 80)}, "thorough": {"procs": 16, "rc": (1500, 200), "timeout": 7200}},
                    {"driver": CONC, "args": ["--mode", "thr"], "replay_tries": 30, "replay_need": 1, "ddmin": False,
-                    "quick": {"procs": 3, "rc": (25, 100)}, "thorough": {"procs": 6, "rc": (600, 200), "timeout": 7200}},
+                    "quick": {"procs": 4, "rc": (50, 100)}, "thorough": {"procs": 6, "rc": (600, 200), "timeout": 7200}},
                    {"driver": CONC_TSAN, "args": ["--mode", "thr"], "replay_tries": 30, "replay_need": 1, "ddmin": False,
-                    "quick": {"procs": 3, "rc": (20, 100)}, "thorough": {"procs": 6, "rc": (500, 200), "timeout": 7200}}],
+                    "quick": {"procs": 4, "rc": (40, 100)}, "thorough": {"procs": 6, "rc": (500, 200), "timeout": 7200}}],
     },
     "C18": {
         "level": "fault_enumeration",
@@ -328,7 +328,7 @@ CHECKS = {
         "level_text": "Exhaustive single-fault enumeration per history (every allocation site reached, failed one at a time), histories sampled; allocator pairing checked with a ledger.",
         "level_note": "Only single failures (one NULL per run). The synchronisation part (temporary PDU stores, shadow tables inside rtr_sync) is covered by the conversation stage.",
         "stages": [{"driver": ALLOCFAIL,
-                    "quick": {"procs": 8, "rc": (40, 60)},
+                    "quick": {"procs": 8, "rc": (25, 50)},
                     "thorough": {"procs": 16, "rc": (4000, 100), "timeout": 7200}}],
     },
     "C06": {
@@ -400,6 +400,7 @@ CHECKS["C17"]["rule"] = ("Stage intervals: rtr_init and rtr_mgr_init are called 
                          + CHECKS["C17"]["rule"])
 # C18 (b): allocation failures during synchronisations
 CHECKS["C18"]["stages"].append(_conv_stage((4, 40), (400, 100), ["--mode", "alloc"], procs_q=8))
+CHECKS["C18"]["stages"][-1]["quick"]["args"] = ["--maxk", "1200"]
 CHECKS["C18"]["engine"] = "rapidcheck + per-fault re-execution + convsim"
 CHECKS["C18"]["rule"] += (" Stage conv: for generated conversations (see C03) run 0 counts the allocations the library makes while synchronising (temporary PDU stores incl. >100 PDU payloads, shadow tables, hash-table growth, undo paths); "
                           "a conversation that ends converged must leave the ledger empty; then every allocation index (every k for N <= 1500, else 1500 evenly spaced) is failed once: no crash, and all conversation oracles (either-or of C03, callbacks, convergence) must still hold.")
